@@ -50,6 +50,7 @@ class Ctx(object):
         self.budget_exhausted = False
         self.exhaustive_parts = {}
         self.suppressed = set()
+        self.fallback_samples = []
 
     # ---- seeds -------------------------------------------------------------------------------
     def seed_for(self, name):
@@ -119,6 +120,8 @@ class Ctx(object):
     def guard(self, fn, case, bucket_prefix='direct'):
         """Run fn(case) outside Hypothesis; a Discrepancy becomes a recorded violation (first per bucket)."""
         self.evaluations += 1
+        if len(self.fallback_samples) < 2:
+            self.fallback_samples.append(case)
         try:
             fn(case)
             return True
@@ -147,6 +150,8 @@ class Ctx(object):
                 def wrapped(case):
                     _counter[0] += 1
                     self.evaluations += 1
+                    if len(self.fallback_samples) < 2:
+                        self.fallback_samples.append(case)
                     try:
                         prop_fn(case)
                     except Discrepancy as d:
